@@ -16,14 +16,18 @@
 EXTENDS Integers, Sequences, FiniteSets, TLC
 
 CONSTANTS
-  Scripts,       \* set of [n, readN, replyJ, failAt]: client messages; backend reads readN (99 = to end of stream),
-                 \* sends replyJ replies, fails at "never" | "before" | "afterReplies" | "afterEOF"
+  Scripts,       \* set of [n, readN, replyJ, failAt, mode, failK]: client messages; backend reads readN (99 = to end of stream),
+                 \* sends replyJ replies, fails at "never" | "before" | "afterReplies" | "afterEOF".
+                 \* mode "lockstep": the client sends message i+1 only after reply i and half-closes after reply n; the
+                 \* backend answers every message with one reply and fails INSTEAD of answering message failK (0 = never)
+  JoinBeforeError,  \* mechanism switch: the front waits for its in-pump also before it reports a backend failure
   Direct,        \* TRUE: no front
   ForwardHalfClose, \* mechanism switch: the in-pump forwards the client's half-close
   NeedFirstMessage  \* mechanism switch: the front waits for the first client message before opening the backend stream
 
 VARIABLE sc      \* the script of this call
 N == sc.n  ReadN == sc.readN  ReplyJ == sc.replyJ  FailAt == sc.failAt
+LockStep == sc.mode = "lockstep"  FailK == sc.failK
 
 EOF == 0        \* half-close marker (messages are 1..N, replies 101.., statuses 1000 / 1001)
 OKm == 1000  ERRm == 1001
@@ -44,27 +48,30 @@ Init ==
   /\ bpc = "wait" /\ bgot = <<>> /\ bsent = 0 /\ bstatus = "none"
 
 \* ---- client ----
-CSend == /\ cpc = "send" /\ csent < N
+CSend == /\ cpc = "send" /\ csent < N /\ (LockStep => Len(cgot) >= csent)
          /\ IF Direct THEN f2b' = Append(f2b, csent + 1) /\ UNCHANGED c2f ELSE c2f' = Append(c2f, csent + 1) /\ UNCHANGED f2b
          /\ csent' = csent + 1
          /\ UNCHANGED <<b2f, f2c, cpc, cgot, cstatus, fpc, inpump, fstatus, bpc, bgot, bsent, bstatus>>
-CHalfClose == /\ cpc = "send" /\ csent = N
+CHalfClose == /\ cpc = "send" /\ csent = N /\ (LockStep => Len(cgot) >= N)
               /\ IF Direct THEN f2b' = Append(f2b, EOF) /\ UNCHANGED c2f ELSE c2f' = Append(c2f, EOF) /\ UNCHANGED f2b
               /\ cpc' = "read"
               /\ UNCHANGED <<b2f, f2c, csent, cgot, cstatus, fpc, inpump, fstatus, bpc, bgot, bsent, bstatus>>
 \* replies and the final status arrive on f2c (proxied) or b2f (direct)
-CRead == /\ cpc = "read"
+\* (a lock-step client also reads between its sends)
+CRead == /\ (cpc = "read" \/ (LockStep /\ cpc = "send"))
          /\ LET ch == IF Direct THEN b2f ELSE f2c IN
             /\ ch # <<>>
             /\ IF Head(ch) \in {OKm, ERRm} THEN cstatus' = StatusOf(Head(ch)) /\ cpc' = "done" /\ UNCHANGED cgot
                ELSE cgot' = Append(cgot, Head(ch)) /\ UNCHANGED <<cstatus, cpc>>
+            \* lock-step: only one reply is awaited at a time (replies never outrun the sends)
+            /\ (LockStep /\ cpc = "send") => (csent > Len(cgot) \/ Head(ch) \in {OKm, ERRm})
             /\ IF Direct THEN b2f' = Tail(b2f) /\ UNCHANGED f2c ELSE f2c' = Tail(f2c) /\ UNCHANGED b2f
          /\ UNCHANGED <<c2f, f2b, csent, fpc, inpump, fstatus, bpc, bgot, bsent, bstatus>>
 
 \* ---- backend (script) ----
 BStart == /\ bpc = "wait"
           /\ (Direct \/ fpc \notin {"recvFirst", "off"})     \* the stream has been opened
-          /\ bpc' = IF FailAt = "before" THEN "fail" ELSE "read"
+          /\ bpc' = IF LockStep THEN "echo" ELSE IF FailAt = "before" THEN "fail" ELSE "read"
           /\ UNCHANGED <<c2f, f2b, b2f, f2c, cpc, csent, cgot, cstatus, fpc, inpump, fstatus, bgot, bsent, bstatus>>
 WantsMore == IF ReadN = 99 THEN TRUE ELSE Len(bgot) < ReadN
 BRead == /\ bpc = "read" /\ WantsMore /\ f2b # <<>>
@@ -86,6 +93,16 @@ BDrain == /\ bpc = "drain" /\ f2b # <<>>
           /\ IF Head(f2b) = EOF THEN bpc' = "fail" /\ UNCHANGED bgot ELSE bgot' = Append(bgot, Head(f2b)) /\ UNCHANGED bpc
           /\ f2b' = Tail(f2b)
           /\ UNCHANGED <<c2f, b2f, f2c, cpc, csent, cgot, cstatus, fpc, inpump, fstatus, bsent, bstatus>>
+\* echo backend (lock-step scripts): one reply per message, failure instead of reply number FailK
+BEchoRead == /\ bpc = "echo" /\ f2b # <<>>
+             /\ IF Head(f2b) = EOF THEN bpc' = "ok" /\ UNCHANGED bgot
+                ELSE /\ bgot' = Append(bgot, Head(f2b))
+                     /\ bpc' = IF Len(bgot) + 1 = FailK THEN "fail" ELSE "echoReply"
+             /\ f2b' = Tail(f2b)
+             /\ UNCHANGED <<c2f, b2f, f2c, cpc, csent, cgot, cstatus, fpc, inpump, fstatus, bsent, bstatus>>
+BEchoReply == /\ bpc = "echoReply"
+              /\ b2f' = Append(b2f, 100 + bsent + 1) /\ bsent' = bsent + 1 /\ bpc' = "echo"
+              /\ UNCHANGED <<c2f, f2b, f2c, cpc, csent, cgot, cstatus, fpc, inpump, fstatus, bgot, bstatus>>
 BFinish == /\ bpc \in {"ok", "fail"}
            /\ bstatus' = IF bpc = "ok" THEN "OK" ELSE "ERR"
            /\ b2f' = Append(b2f, (IF bpc = "ok" THEN OKm ELSE ERRm)) /\ bpc' = "done"
@@ -113,7 +130,7 @@ FPump == /\ inpump = "run" /\ c2f # <<>>
 \* out-loop: backend -> client, until the backend's status
 FOut == /\ fpc = "loop" /\ b2f # <<>>
         /\ IF Head(b2f) \in {OKm, ERRm}
-           THEN /\ fstatus' = StatusOf(Head(b2f)) /\ fpc' = (IF Head(b2f) = ERRm THEN "return" ELSE "join") /\ UNCHANGED f2c
+           THEN /\ fstatus' = StatusOf(Head(b2f)) /\ fpc' = (IF Head(b2f) = ERRm /\ ~JoinBeforeError THEN "return" ELSE "join") /\ UNCHANGED f2c
            ELSE /\ f2c' = Append(f2c, Head(b2f)) /\ UNCHANGED <<fstatus, fpc>>
         /\ b2f' = Tail(b2f)
         /\ UNCHANGED <<c2f, f2b, cpc, csent, cgot, cstatus, inpump, bpc, bgot, bsent, bstatus>>
@@ -127,17 +144,20 @@ FReturn == /\ fpc = "return" /\ f2c' = Append(f2c, (IF fstatus = "OK" THEN OKm E
 Done == cpc = "done"
 Next == \/ /\ UNCHANGED sc
            /\ (CSend \/ CHalfClose \/ CRead \/ BStart \/ BRead \/ BReadDone \/ BReply \/ BAfterReplies \/ BDrain \/ BFinish
+               \/ BEchoRead \/ BEchoReply
                \/ FRecvFirst \/ FPump \/ FOut \/ FJoin \/ FReturn)
         \/ (Done /\ UNCHANGED pvars)
 Spec == Init /\ [][Next]_pvars /\ WF_pvars(Next)
 
 -----------------------------------------------------------------------------
 (* What a direct call gives (schedule independent): the oracle *)
-BackendReads == IF FailAt = "before" THEN 0
+BackendReads == IF LockStep THEN (IF FailK = 0 THEN N ELSE FailK)
+                ELSE IF FailAt = "before" THEN 0
                 ELSE IF ReadN = 99 \/ FailAt = "afterEOF" THEN N
                 ELSE IF ReadN < N THEN ReadN ELSE N
-WantReplies == IF FailAt = "before" THEN <<>> ELSE [k \in 1..ReplyJ |-> 100 + k]
-WantStatus == IF FailAt = "never" THEN "OK" ELSE "ERR"
+WantReplies == IF LockStep THEN [k \in 1..(IF FailK = 0 THEN N ELSE FailK - 1) |-> 100 + k]
+               ELSE IF FailAt = "before" THEN <<>> ELSE [k \in 1..ReplyJ |-> 100 + k]
+WantStatus == IF LockStep THEN (IF FailK = 0 THEN "OK" ELSE "ERR") ELSE IF FailAt = "never" THEN "OK" ELSE "ERR"
 
 \* C10: when the call has finished, the client saw what a direct call shows
 TranscriptEquivalence == Done => cgot = WantReplies /\ cstatus = WantStatus
